@@ -276,6 +276,26 @@ func c17Decoder(c *core.Ctx, r *core.Report, unm *ssa.Function) {
 							setTargets = append(setTargets, absint.Show(a[0]))
 							return ip.CallValue(a[1], target)
 						}
+						// what a check of the decode target may ask: SetValue hands over a non-nil pointer
+						rvTarget := absint.NewTok("reflect.ValueOf(target)", "reflected")
+						t.ext["reflect.ValueOf"] = func(ip *absint.Interp, a []absint.Value) absint.Value {
+							if a[0] == absint.Value(target) {
+								return rvTarget
+							}
+							panic(&absint.Undecided{Msg: "reflect.ValueOf of " + absint.Show(a[0])})
+						}
+						t.ext["(reflect.Value).Kind"] = func(ip *absint.Interp, a []absint.Value) absint.Value {
+							if a[0] == absint.Value(rvTarget) {
+								return absint.Int(22) // reflect.Pointer
+							}
+							panic(&absint.Undecided{Msg: "Kind of " + absint.Show(a[0])})
+						}
+						t.ext["(reflect.Value).IsNil"] = func(ip *absint.Interp, a []absint.Value) absint.Value {
+							if a[0] == absint.Value(rvTarget) {
+								return absint.Bool(false)
+							}
+							panic(&absint.Undecided{Msg: "IsNil of " + absint.Show(a[0])})
+						}
 						t.ext["github.com/mitchellh/mapstructure.NewDecoder"] = func(ip *absint.Interp, a []absint.Value) absint.Value {
 							if cfg, ok := a[0].(*absint.Tok); ok {
 								cfgs = append(cfgs, cfg)
